@@ -37,7 +37,8 @@ Inductive out := OVal (v : val) | ONone | OPanic | OErr | OFuel | OUnmod.
 
 Definition chk (x : Z) : out := if in_i64 x then OVal (VInt x) else OPanic.
 
-Inductive binop := Add | Sub | Mul | Div | Rem | Pow | Shl | Shr | BAnd | BOr | BXor.
+(* BitwiseXor exists in eval_binary_op but the parser has no token for it: not reachable, not modelled *)
+Inductive binop := Add | Sub | Mul | Div | Rem | Pow | Shl | Shr | BAnd | BOr.
 Inductive unop := Neg | Pos | BNot.
 (* ELit n: the decimal literal n >= 0 (SQL has no negative literals: -5 is Neg (ELit 5)) *)
 Inductive expr := ELit (n : Z) | ENull | EUn (o : unop) (e : expr) | EBin (o : binop) (l r : expr).
@@ -89,7 +90,6 @@ Definition eval_bin (o : binop) (x y : val) : out :=
       | Shr => if (0 <=? b) && (b <? 64) then OVal (VInt (Z.shiftr a b)) else ONone
       | BAnd => OVal (VInt (Z.land a b))
       | BOr => OVal (VInt (Z.lor a b))
-      | BXor => OVal (VInt (Z.lxor a b))
       end
   | _, _ => ONone
   end.
@@ -150,7 +150,6 @@ Definition exact_bin (o : binop) (a b : Z) : xres :=
   | Shr => if (0 <=? b) && (b <? 64) then XInt (a / 2 ^ b) else XAny
   | BAnd => XInt (Z.land a b)
   | BOr => XInt (Z.lor a b)
-  | BXor => XInt (Z.lxor a b)
   end.
 
 Definition exact_un (o : unop) (a : Z) : xres :=
